@@ -217,6 +217,13 @@ func (v *ClusterView) recomputeCounts() {
 	// 状态压缩：版本向量只保留当前成员，防止无限增长
 	if len(activeNodes) > 0 {
 		maxEnt := v.MaxVersionVectorEntries
+		if maxEnt <= 0 {
+			maxEnt = maxVersionVectorEntries
+		}
+		// 条目上限用于限制已离开节点遗留的条目，不能低于当前成员数：否则现有成员的计数会在合并时被裁掉（版本回退、因果信息丢失）
+		if maxEnt < len(activeNodes) {
+			maxEnt = len(activeNodes)
+		}
 		v.VersionVector = v.VersionVector.PruneWithMax(activeNodes, maxEnt)
 	}
 }
